@@ -243,6 +243,11 @@ impl Run {
                 )
             });
             e.0 += 1;
+            let total: u64 = g.new_violations.values().map(|(n, _)| *n as u64).sum();
+            if total >= crate::VIOLATION_BUDGET && !crate::VIOLATION_BUDGET_SPENT.swap(true, std::sync::atomic::Ordering::Relaxed) {
+                g.caps.push(format!("exploration wound down early after {total} occurrences of new violations (the verdict cannot change any more)"));
+                g.exhaustive = false;
+            }
         }
     }
 
